@@ -40,6 +40,7 @@ def run_generic(ctx, pid, kind, predicate, extra_docs, trusted, rule_text, cfg_f
     cases = [(mkcfg(rng, k), "parse", mkdoc(rng, k), None) for k in range(n_corr)]
     # the hand-made corner documents first, each under the two configurations that switch every rule on
     fixed = [(dict(configs.STANDARD[ci], ruler2_off=[]), d) for d in docs.corner_docs() for ci in (2, 4)]
+    fixed += [(dict(docs.CODE_OFF), d) for d in docs.code_off_docs()]
     if cfg_filter:
         fixed = [(cfg_filter(c), d) for c, d in fixed]
     cases = [(c, "parse", d, None) for c, d in fixed] + cases
